@@ -219,6 +219,12 @@ def special_members(facts):
             else:
                 handled = {}
                 locals_ = {}
+                # statements moved into a private helper of the class (`swap_state(copy)`) are read in place
+                try:
+                    from astu import inlined_body
+                    fn = dict(fn, body=inlined_body(fn, {f2["pat"]: f2 for f2 in fns if f2.get("pat")}, depth=2))
+                except Exception:
+                    pass
                 walk(fn["body"], lambda n: [locals_.__setitem__(v["d"], v) for v in n.get("vars", []) if "d" in v] if n.get("k") == "Decl" else None)
                 copies = {d for d, v in locals_.items() if v.get("init") is not None and mentions_decl(v["init"], other)}
 
@@ -254,6 +260,11 @@ def special_members(facts):
                         if n.get("k") == "OpCall" and n.get("op") == "=" and len(n.get("args", [])) == 2:
                             a0, a1 = strip_all(n["args"][0]), strip_all(n["args"][1])
                             if a0.get("k") == "Un" and a0.get("op") == "*" and strip_all(a0.get("e") or {}).get("k") == "This" and a1.get("k") == "Ref" and a1.get("d") in copies:
+                                deleg.append(a1["d"])
+                        # spelled as a call: operator=(std::move(copy)) / this->operator=(std::move(copy))
+                        if n.get("k") == "Call" and n.get("cname") == "operator=" and len(n.get("args", [])) == 1 and (n.get("obj") is None or strip_all(n.get("obj") or {}).get("k") == "This"):
+                            a1 = strip_all(n["args"][0])
+                            if a1.get("k") == "Ref" and a1.get("d") in copies:
                                 deleg.append(a1["d"])
                     walk(fn["body"], dv)
                     if deleg:
@@ -888,8 +899,32 @@ def reset_completeness(facts, records=None):
             continue
         nrec += 1
         Wm = collections.defaultdict(set)
+        # helpers that exist only for the special members (a `swap_state(other)` shared by the two assignment operators) are part
+        # of those, not mutators of their own
+        callers = collections.defaultdict(set)
+        for f in fl:
+            if f.get("body") is None:
+                continue
+            walk(f["body"], lambda n, f=f: callers[n.get("cname")].add(f["pat"]) if n.get("k") == "Call" and n.get("cname") and (n.get("obj") is None or strip_all(n.get("obj") or {}).get("k") == "This") else None)
+        by_pat_l = {f["pat"]: f for f in fl}
+
+        def only_special(name, depth=0, seen=()):
+            cs = callers.get(name) or set()
+            if not cs or depth > 3:
+                return False
+            for cp in cs:
+                g = by_pat_l.get(cp)
+                if g is None:
+                    return False
+                if g.get("special") or g["kind"] in ("ctor", "dtor"):
+                    continue
+                if g["name"] in seen or not only_special(g["name"], depth + 1, seen + (name,)):
+                    return False
+            return True
         for f in fl:
             if f["kind"] != "method" or f.get("special") or f["name"] == "reset" or f.get("const") or f.get("static") or f.get("body") is None:
+                continue
+            if only_special(f["name"]):
                 continue
             for w in writes(f):
                 Wm[w].add(f["name"])
